@@ -105,6 +105,15 @@ Definition sim_run (pl : list row) (now : nat -> Q) (until : option Q) (s : sims
 Definition sim_finalize (s : simstate) : res simstate :=
   if s_ready s then Err EAlreadyRun else Ok (mkSS (s_idx s) (s_clk s) (s_complete s) true (S (s_scaled s))).
 
+(* two handles on one run: after MultiSim.run's in-place update (old.__dict__.update(new.__dict__)) the caller's sim and the member are two objects
+   that share people, results and loop -- hence the scaling counter -- but each keeps its OWN complete / results_ready flags.  An operation through
+   one handle updates its flags and the shared counter; the other handle sees the counter only. *)
+Definition set_scaled (s : simstate) (n : nat) : simstate := mkSS (s_idx s) (s_clk s) (s_complete s) (s_ready s) n.
+Definition through (first : bool) (f : simstate -> res simstate) (p : simstate * simstate) : simstate * simstate :=
+  let (a, b) := p in
+  if first then match f a with Ok a' => (a', set_scaled b (s_scaled a')) | Err _ => p end
+  else match f b with Ok b' => (set_scaled a (s_scaled b'), b') | Err _ => p end.
+
 (* ---- Loop.collect_abs_tvecs keys the time vectors by the owner's NAME (a string), not by the module: the vector used for module `id` is that of the
    LAST module in the list carrying the same name.  `name : nat -> nat` gives the name of each module id. *)
 Fixpoint find_last_named (name : nat -> nat) (mods : list modl) (nm : nat) : option modl :=
